@@ -69,12 +69,18 @@ func genReal(thorough bool) func(t *rapid.T) Case {
 	}
 }
 
-// Eval runs the world twice: simulated and real.
-func (c *CaseReal) Eval(ob *Obs) []Finding {
+// realRun is what the uninstrumented binary did on a materialised world.
+type realRun struct {
+	failed         bool
+	stdout, stderr string
+}
+
+// runReal materialises w under a fresh temporary directory and runs the real binary on it.
+// sink: "" (captured), "devfull" or "closedpipe".
+func runReal(w World, sink string) realRun {
 	if realBin == "" {
 		panic(harnessFault{"HRSIM_REALBIN is not set"})
 	}
-	sim := ob.run(c.W)
 	root, err := os.MkdirTemp(os.Getenv("HRSIM_SCRATCH_DIR"), "real")
 	if err != nil {
 		panic(harnessFault{err.Error()})
@@ -83,7 +89,7 @@ func (c *CaseReal) Eval(ob *Obs) []Finding {
 	re := func(s string) string { return strings.ReplaceAll(s, "/sim/", root+"/sim/") }
 	abs := func(p string) string {
 		if !strings.HasPrefix(p, "/") {
-			p = c.W.Cwd + "/" + p
+			p = w.Cwd + "/" + p
 		}
 		return re(filepath.Clean(p))
 	}
@@ -92,9 +98,9 @@ func (c *CaseReal) Eval(ob *Obs) []Finding {
 			panic(harnessFault{"materialising the world: " + err.Error()})
 		}
 	}
-	must(os.MkdirAll(abs(c.W.Cwd), 0o755))
-	must(os.MkdirAll(abs(c.W.Home), 0o755))
-	for _, f := range c.W.Files {
+	must(os.MkdirAll(abs(w.Cwd), 0o755))
+	must(os.MkdirAll(abs(w.Home), 0o755))
+	for _, f := range w.Files {
 		p := abs(f.Path)
 		must(os.MkdirAll(filepath.Dir(p), 0o755))
 		if f.Kind == "dir" {
@@ -103,61 +109,76 @@ func (c *CaseReal) Eval(ob *Obs) []Finding {
 		}
 		must(os.WriteFile(p, []byte(re(f.Data)), 0o644))
 	}
-	args := make([]string, 0, len(c.W.Argv))
-	for _, a := range c.W.Argv[1:] {
+	args := make([]string, 0, len(w.Argv))
+	for _, a := range w.Argv[1:] {
 		args = append(args, re(a))
 	}
 	cmd := exec.Command(realBin, args...)
-	cmd.Dir = abs(c.W.Cwd)
-	env := []string{"HOME=" + abs(c.W.Home), "USER=sim", "TZ=" + c.W.Zone, "PATH=/usr/bin:/bin"}
-	keys := make([]string, 0, len(c.W.Env))
-	for k := range c.W.Env {
+	cmd.Dir = abs(w.Cwd)
+	env := []string{"HOME=" + abs(w.Home), "USER=sim", "TZ=" + w.Zone, "PATH=/usr/bin:/bin"}
+	keys := make([]string, 0, len(w.Env))
+	for k := range w.Env {
 		keys = append(keys, k)
 	}
 	sort.Strings(keys)
 	for _, k := range keys {
-		env = append(env, k+"="+re(c.W.Env[k]))
+		env = append(env, k+"="+re(w.Env[k]))
 	}
 	cmd.Env = env
 	var stdout, stderr bytes.Buffer
 	cmd.Stderr = &stderr
-	if c.DevFull {
+	switch sink {
+	case "devfull":
 		f, err := os.OpenFile("/dev/full", os.O_WRONLY, 0)
 		must(err)
 		defer f.Close()
 		cmd.Stdout = f
-	} else if c.Closed {
+	case "closedpipe":
 		pr, pw, err := os.Pipe()
 		must(err)
 		pr.Close() // nobody will ever read: the first write gets EPIPE / SIGPIPE
 		defer pw.Close()
 		cmd.Stdout = pw
-	} else {
+	default:
 		cmd.Stdout = &stdout
 	}
 	runErr := cmd.Run()
-	realFailed := runErr != nil
-	if ee, ok := runErr.(*exec.ExitError); runErr != nil && (!ok || (ee.ExitCode() < 0 && !c.Closed)) {
+	if ee, ok := runErr.(*exec.ExitError); runErr != nil && (!ok || (ee.ExitCode() < 0 && sink != "closedpipe")) {
 		// (with a closed pipe the process is ended by SIGPIPE, which is a non-zero status as far as the property goes)
 		panic(harnessFault{"cannot run the real binary: " + runErr.Error()})
 	}
+	return realRun{failed: runErr != nil, stdout: strings.ReplaceAll(stdout.String(), root+"/sim/", "/sim/"), stderr: strings.ReplaceAll(stderr.String(), root+"/sim/", "/sim/")}
+}
+
+// Eval runs the world twice: simulated and real.
+func (c *CaseReal) Eval(ob *Obs) []Finding {
+	sim := ob.run(c.W)
+	sink := ""
+	if c.DevFull {
+		sink = "devfull"
+	} else if c.Closed {
+		sink = "closedpipe"
+	}
+	rr := runReal(c.W, sink)
 	ob.count("real_binary_runs", 1)
 	ob.nontrivial(hashOf(c))
 	ob.probe("real_" + c.Note)
-	realOut := strings.ReplaceAll(stdout.String(), root+"/sim/", "/sim/")
 	var out []Finding
 	if sim.Panic != "" {
 		// a crash in the simulator must be a crash of the real binary too (exit status 2 of the Go runtime)
-		if !realFailed {
+		if !rr.failed {
 			out = append(out, Finding{"REAL panic-only-in-sim", short(sim.Panic, 200)})
 		}
 		return out
 	}
-	if sim.Failed != realFailed {
-		out = append(out, Finding{"REAL exit-status-differs kind=" + c.Note, fmt.Sprintf("sim failed=%v (%s); real failed=%v stderr=%q argv=%q", sim.Failed, sim.Err, realFailed, short(stderr.String(), 300), c.W.Argv)})
+	if sim.Failed != rr.failed {
+		out = append(out, Finding{"REAL exit-status-differs kind=" + c.Note, fmt.Sprintf("sim failed=%v (%s); real failed=%v stderr=%q argv=%q", sim.Failed, sim.Err, rr.failed, short(rr.stderr, 300), c.W.Argv)})
 	}
-	if !c.DevFull && !c.Closed && sim.Stdout != realOut {
-		out = append(out, Finding{"REAL stdout-differs kind=" + c.Note, fmt.Sprintf("%s argv=%q", firstDiff(sim.Stdout, realOut), c.W.Argv)})
+	if sink == "" && sim.Stdout != rr.stdout {
+		out = append(out, Finding{"REAL stdout-differs kind=" + c.Note, fmt.Sprintf("%s argv=%q", firstDiff(sim.Stdout, rr.stdout), c.W.Argv)})
+	}
+	if sink == "" && sim.Failed && sim.Err != "" && !strings.Contains(rr.stderr, sim.Err) {
+		out = append(out, Finding{"REAL error-message-differs kind=" + c.Note, fmt.Sprintf("sim: %q real stderr: %q argv=%q", sim.Err, short(rr.stderr, 300), c.W.Argv)})
 	}
 	return out
 }
